@@ -70,6 +70,10 @@ def run_edit(args) -> dict:
                 fired += [(prop, o.rule, o.construct, o.msg) for o in res.violations]
         except AnalysisError as e:
             return {"id": edit["id"], "status": "analysis-error", "detail": str(e)}
+        except Exception as e:  # noqa: BLE001  (a crash of the checker is reported, not raised)
+            import traceback
+
+            return {"id": edit["id"], "status": "internal-error", "detail": traceback.format_exc()[-400:]}
         if edit["kind"] == "mutant":
             want = edit.get("rule")
             hit = [f for f in fired if want is None or f[1] == want or f[1] in edit.get("also", ())]
@@ -106,7 +110,7 @@ def run_selftest(prop: str, seed: int = 0) -> dict:
     # known findings are violations on the base tree too; the corpus only counts *new* ones,
     # which is what run_edit sees because known findings are not in res.violations.
     results = run_corpus(edits)
-    bad = [r for r in results if r["status"] in ("MISSED", "FALSE-ALARM", "broken-edit")]
+    bad = [r for r in results if r["status"] in ("MISSED", "FALSE-ALARM", "broken-edit", "internal-error")]
     summary = {
         "mutants": sum(1 for e in edits if e["kind"] == "mutant"),
         "benign": sum(1 for e in edits if e["kind"] == "benign"),
@@ -141,7 +145,7 @@ def main(argv=None) -> int:
     bad = 0
     for r in res:
         print(r["id"], r["status"], r.get("by") or r.get("detail") or "")
-        if r["status"] in ("MISSED", "FALSE-ALARM", "broken-edit", "analysis-error"):
+        if r["status"] in ("MISSED", "FALSE-ALARM", "broken-edit", "analysis-error", "internal-error"):
             bad += 1
     print(f"{len(res)} edits, {bad} problems")
     return 2 if bad else 0
